@@ -45,7 +45,11 @@ Section AW.
   Notation W := (wrap1 (WAct f asp) e).
 
   Theorem gen_aw_eq_model s a s' k :
-    e_trans W s a k = gen_aw_transition_env_state e f s a k /    e_rew W s a s' k = gen_aw_reward_value e f s a s' k /    e_tinfo W s a s' = gen_aw_transition_info_value e f s a s' /    e_trunc W s = gen_aw_truncate_value e f s /    e_term W s k = gen_aw_terminal_value e f s k.
+    e_trans W s a k = gen_aw_transition_env_state e f s a k /\
+    e_rew W s a s' k = gen_aw_reward_value e f s a s' k /\
+    e_tinfo W s a s' = gen_aw_transition_info_value e f s a s' /\
+    e_trunc W s = gen_aw_truncate_value e f s /\
+    e_term W s k = gen_aw_terminal_value e f s k.
   Proof. repeat split; reflexivity. Qed.
 End AW.
 
